@@ -892,7 +892,7 @@ class CreateOverlappingPartitions(Expr):
     def _layer(self) -> dict:
         dsk, prevs, nexts = {}, [], []
 
-        name_prepend = "overlap-prepend" + self.frame._name
+        name_prepend = "overlap-prepend" + self._name
         if self.before:
             prevs.append(None)
             if isinstance(self.before, numbers.Integral):
@@ -943,7 +943,7 @@ class CreateOverlappingPartitions(Expr):
         else:
             prevs.extend([None] * self.frame.npartitions)
 
-        name_append = "overlap-append" + self.frame._name
+        name_append = "overlap-append" + self._name
         if self.after:
             if isinstance(self.after, numbers.Integral):
                 after = self.after
